@@ -95,8 +95,24 @@ theorem parseInt64_range (s : Bytes) (i : Int) (h : parseInt64 s = some i) : IsI
       · rw [if_pos hb] at h; injection h with h; subst h; unfold IsI64; omega
       · rw [if_neg hb] at h; cases h
 
-theorem parseLit_ok (L : Leaf) (s : Bytes) (l : Lit) (h : parseLit L s = some l) : LitOK l := by
+theorem parseLit_ok (L : Leaf) (hL : LeafLaws L) (s : Bytes) (l : Lit) (h : parseLit L s = some l) : LitOK L l := by
   cases l with
+  | float b =>
+    unfold parseLit at h
+    simp only at h
+    repeat' (split at h)
+    all_goals first
+      | (cases h; done)
+      | skip
+    all_goals
+      first
+        | (simp only [Option.map_eq_some_iff] at h
+           obtain ⟨a, ha, e⟩ := h
+           first
+             | (injection e with e; subst e; exact hL.float_parsed_ok _ _ ha)
+             | cases e)
+        | (injection h with h; cases h)
+        | trivial
   | int i =>
     unfold parseLit at h
     simp only at h
@@ -150,7 +166,7 @@ theorem pred_stable (L : Leaf) (hL : LeafLaws L) (s : Bytes) (p : Pred) (h : par
 
 theorem lit_stable (L : Leaf) (hL : LeafLaws L) (s : Bytes) (l : Lit) (h : parseLit L s = some l) :
     parseLit L (printLit L l) = some l := by
-  exact parseLit_printLit L hL l (parseLit_ok L s l h)
+  exact parseLit_printLit L hL l (parseLit_ok L hL s l h)
 
 theorem parseObject_ok (L : Leaf) (hL : LeafLaws L) (s : Bytes) (o : Obj) (h : parseObject L s = some o) : ObjOK L o := by
   unfold parseObject parseObjectWith at h
@@ -163,7 +179,7 @@ theorem parseObject_ok (L : Leaf) (hL : LeafLaws L) (s : Bytes) (o : Obj) (h : p
     cases hl : parseLit L s with
     | some l =>
       simp only [hl, Option.some.injEq] at h; subst h
-      exact parseLit_ok L s l hl
+      exact parseLit_ok L hL s l hl
     | none =>
       simp only [hl, Option.map_eq_some_iff] at h
       obtain ⟨p, hp, e⟩ := h
